@@ -1256,7 +1256,7 @@ class _Inliner:
     # one call of a statement-bodied helper nested in a simple statement whose
     # other sub-expressions are call-free: hoist it in front (same order of
     # evaluation), then expand
-    if isinstance(s, (ast.Assign, ast.Expr, ast.Return, ast.AugAssign)):
+    if isinstance(s, (ast.Assign, ast.Expr, ast.Return, ast.AugAssign, ast.Raise)):
       calls = [n for n in ast.walk(s) if isinstance(n, ast.Call)]
       mine = [c for c in calls if self._callee(c, cls)[0] is not None]
       if len(mine) == 1 and len(calls) == 1 and not _has(s, (ast.Lambda, ast.ListComp,
